@@ -158,6 +158,13 @@ func genPlanQuery(r *rand.Rand, t *jTable) string {
 		}
 		if r.Intn(3) == 0 {
 			// a second level: the filter (often an IN-subquery) sits two FROM-subqueries down
+			if r.Intn(2) == 0 {
+				// ... in a shape that otherwise qualifies for whole-query pushdown (group by all at every level)
+				inner = "SELECT * FROM t WHERE " + []string{
+					fmt.Sprintf("d1 IN (SELECT d1 FROM t GROUP BY d1 HAVING _points > %d)", r.Intn(4)),
+					fmt.Sprintf("d2 IN (SELECT d2 FROM t WHERE d1 <> '%s' GROUP BY d2)", c11Lit(r)),
+					fmt.Sprintf("d1 IN (SELECT d1 FROM t WHERE d2 > %d)", r.Intn(3))}[r.Intn(3)]
+			}
 			outer := "SELECT * FROM (" + inner + ")"
 			switch r.Intn(4) {
 			case 0:
